@@ -14,6 +14,7 @@ oracle of `harness/props/c02.py`, not by a theorem (see DESIGN.md).
 -/
 import SshuttleModel.Props.C01
 import SshuttleModel.Lemmas.SockInv
+import SshuttleModel.Spec.Quiet
 
 namespace Sshuttle.Tunnel
 open Sshuttle.Mux (Frame)
@@ -272,7 +273,7 @@ theorem C02_finished_frees_id (w0 : World) (h0 : w0.flows = []) (steps : List St
       (∀ p, f.c = some p → p.ok = false → Dead p ∧ p.mw.registered = false) ∧
       (∀ p, f.s = some p → p.ok = false → Dead p ∧ p.mw.registered = false) := by
   intro f hf
-  obtain ⟨hc, hs⟩ := reach_flowSock w0 h0 steps f hf
+  obtain ⟨hc, hs, _, _⟩ := reach_flowSock w0 h0 steps f hf
   exact ⟨fun p hp hok => ⟨(hc p hp).2 hok, ((hc p hp).2 hok).unregistered⟩,
          fun p hp hok => ⟨(hs p hp).2 hok, ((hs p hp).2 hok).unregistered⟩⟩
 
@@ -329,6 +330,221 @@ theorem C02_eof_shutdown_complete (w : MuxW) (s : SockW) (e : ESock) (r : SendRe
       | none => exact tail (w, s1, e1) rfl hu
       | some n => exact tail ({ w with buf := b.drop n :: rest }, s1, e1) rfl hu
 
+
+/-! ### no stuck state: a quiet state is a complete state -/
+
+/-- Nothing left to do for one handler: not connecting, both buffers empty, nothing to read (or
+reading already stopped), and every flag that `callback` / `pre_select` would propagate has been
+propagated. -/
+def HQ (h : Option ProxyS) (e : ESock) : Prop :=
+  ∀ p, h = some p →
+    p.sw.connecting = false ∧ p.sw.buf.flatten = [] ∧ p.mw.buf.flatten = [] ∧
+    (p.sw.shutR = false → e.pending = [] ∧ e.eofIn = false) ∧
+    (p.sw.shutR = true → p.mw.shutW = true) ∧ (p.mw.shutR = true → p.sw.shutW = true) ∧
+    (p.sw.shutW = true → p.mw.shutR = true) ∧ (p.mw.shutW = true → p.sw.shutR = true) ∧
+    (p.sw.shutR = true → p.mw.shutR = true → p.ok = false)
+
+/-- A quiet world: both frame queues drained and nothing left to do for any handler. -/
+def Quiet (w : World) : Prop :=
+  w.cm.out = [] ∧ w.sm.out = [] ∧ ∀ f ∈ w.flows, HQ f.c f.app ∧ HQ f.s f.dst
+
+
+theorem hqB_iff (h : Option ProxyS) (e : ESock) : hqB h e = true ↔ HQ h e := by
+  cases h with
+  | none => simp [hqB, HQ]
+  | some p =>
+    simp only [hqB, HQ, Option.some.injEq, forall_eq', Bool.and_eq_true, Bool.or_eq_true, Bool.not_eq_eq_eq_not,
+      Bool.not_true, List.isEmpty_iff, Bool.not_eq_true']
+    constructor
+    · rintro ⟨⟨⟨⟨⟨⟨⟨⟨a1, a2⟩, a3⟩, a4⟩, a5⟩, a6⟩, a7⟩, a8⟩, a9⟩
+      refine ⟨a1, a2, a3, ?_, ?_, ?_, ?_, ?_, ?_⟩
+      · intro hr; rcases a4 with h' | h'
+        · rw [hr] at h'; cases h'
+        · exact h'
+      · intro hr; rcases a5 with h' | h'
+        · rw [hr] at h'; cases h'
+        · exact h'
+      · intro hr; rcases a6 with h' | h'
+        · rw [hr] at h'; cases h'
+        · exact h'
+      · intro hr; rcases a7 with h' | h'
+        · rw [hr] at h'; cases h'
+        · exact h'
+      · intro hr; rcases a8 with h' | h'
+        · rw [hr] at h'; cases h'
+        · exact h'
+      · intro h1 h2; rcases a9 with h' | h'
+        · rw [h1, h2] at h'; cases h'
+        · exact h'
+    · rintro ⟨a1, a2, a3, a4, a5, a6, a7, a8, a9⟩
+      refine ⟨⟨⟨⟨⟨⟨⟨⟨a1, a2⟩, a3⟩, ?_⟩, ?_⟩, ?_⟩, ?_⟩, ?_⟩, ?_⟩
+      · cases hr : p.sw.shutR with
+        | true => exact Or.inl rfl
+        | false => exact Or.inr (a4 hr)
+      · cases hr : p.sw.shutR with
+        | true => exact Or.inr (a5 hr)
+        | false => exact Or.inl rfl
+      · cases hr : p.mw.shutR with
+        | true => exact Or.inr (a6 hr)
+        | false => exact Or.inl rfl
+      · cases hr : p.sw.shutW with
+        | true => exact Or.inr (a7 hr)
+        | false => exact Or.inl rfl
+      · cases hr : p.mw.shutW with
+        | true => exact Or.inr (a8 hr)
+        | false => exact Or.inl rfl
+      · cases h1 : p.sw.shutR with
+        | false => left; simp
+        | true =>
+          cases h2 : p.mw.shutR with
+          | false => left; simp
+          | true => right; exact a9 h1 h2
+
+/-- The driver's executable test is exactly `Quiet`. -/
+theorem quietB_iff (w : World) : quietB w = true ↔ Quiet w := by
+  simp only [quietB, Quiet, Bool.and_eq_true, List.isEmpty_iff, List.all_eq_true, hqB_iff, and_assoc]
+
+/-- **No reachable quiet state is stuck.**  In every reachable state (any schedule) in which
+nothing is pending — queues drained, buffers empty, nothing to read, every flag propagated — each
+flow is complete:
+* its server handler was created (no CONNECT was lost);
+* while an endpoint's socket is open, it has received exactly what the tunnel read from the other
+  endpoint (no undelivered data);
+* an endpoint that closed (`eofIn`, everything read) has had its close delivered: the other
+  endpoint's socket was shut down (no half-open flow);
+* if both endpoints closed, both handlers are finished (`ok = False`): the next loop pass drops them,
+  and their id is already free (`C02_finished_frees_id`).
+
+`Quiet` is the explicit description of "a loop pass changes nothing"; that the real loop's
+quiescent states satisfy it is checked on every run by the harness (the drained model state is
+tested for `Quiet`), it is not a theorem. -/
+theorem C02_quiet_complete (w0 : World) (h0 : Fresh w0) (steps : List Step)
+    (hg : ∀ st ∈ steps, GoodStep st) (hn : (chans (w0.run steps)).Nodup)
+    (halive : (w0.run steps).died = none) (hq : Quiet (w0.run steps)) :
+    ∀ f ∈ (w0.run steps).flows,
+      f.sEver = true ∧
+      (f.dst.sawShut = false → f.app.consumed = f.dst.delivered) ∧
+      (f.app.sawShut = false → f.dst.consumed = f.app.delivered) ∧
+      (f.app.eofIn = true → f.app.pending = [] → f.dst.sawShut = true) ∧
+      (f.dst.eofIn = true → f.dst.pending = [] → f.app.sawShut = true) ∧
+      (f.app.eofIn = true → f.app.pending = [] → f.dst.eofIn = true → f.dst.pending = [] →
+        (∀ p, f.c = some p → p.ok = false) ∧ (∀ p, f.s = some p → p.ok = false)) := by
+  intro f hf
+  obtain ⟨hqc, hqs, hqf⟩ := hq
+  obtain ⟨hQc, hQs⟩ := hqf f hf
+  have hfo := reach_flowOK w0 h0 steps hg hn halive f hf
+  have hsock := (h0.runInv.run steps hg hn).2.1 f hf
+  have eU2 : (upSink f).sawShut = f.dst.sawShut := by unfold upSink; split <;> rfl
+  have eD2 : (downSink f).sawShut = f.app.sawShut := by unfold downSink; split <;> rfl
+  -- (0) the server handler exists or existed
+  have hev : f.sEver = true := by
+    cases he : f.sEver with
+    | true => rfl
+    | false =>
+      exfalso
+      have hsn : f.s = none := by
+        cases hs : f.s with
+        | none => rfl
+        | some q => have := (hfo.schan q hs).2.2; rw [he] at this; cases this
+      have := (hfo.up.conn (by simp [upSink, hsn, goneSink, he])).2
+      rw [upSrc_out, hqc] at this
+      exact this
+  -- buffers and queues are empty
+  have bufU : (upSink f).buf = [] ∧ (upSrc (w0.run steps).cm f).buf = [] := by
+    constructor
+    · cases hs : f.s with
+      | none => simp [upSink, hs, goneSink]
+      | some q => simp only [upSink, hs, KV]; exact (hQs q hs).2.2.1
+    · cases hc : f.c with
+      | none => simp [upSrc, hc, goneSrc]
+      | some p => simp only [upSrc, hc, SV]; exact (hQc p hc).2.1
+  have bufD : (downSink f).buf = [] ∧ (downSrc (w0.run steps).sm f).buf = [] := by
+    constructor
+    · cases hc : f.c with
+      | none => simp [downSink, hc, goneSink]
+      | some p => simp only [downSink, hc, KV]; exact (hQc p hc).2.2.1
+    · cases hs : f.s with
+      | none => simp [downSrc, hs, goneSrc]
+      | some q => simp only [downSrc, hs, SV]; exact (hQs q hs).2.1
+  have cons := C01_conservation w0 h0 steps hg hn halive f hf
+  -- a closed endpoint's handler is done as a source
+  have nmU : f.app.eofIn = true → f.app.pending = [] → noMore (upSrc (w0.run steps).cm f) := by
+    intro he hp
+    cases hc : f.c with
+    | none => exact ⟨by simp [upSrc, hc, goneSrc], Or.inl (by simp [upSrc, hc, goneSrc])⟩
+    | some p =>
+      obtain ⟨_, hb, _, h4, h5, _⟩ := hQc p hc
+      have hr : p.sw.shutR = true := by
+        cases hr : p.sw.shutR with
+        | true => rfl
+        | false => have := (h4 hr).2; rw [he] at this; cases this
+      exact ⟨by simp [upSrc, hc, SV], Or.inr (by simp only [upSrc, hc, SV]; exact ⟨h5 hr, hb, hr⟩)⟩
+  have nmD : f.dst.eofIn = true → f.dst.pending = [] → noMore (downSrc (w0.run steps).sm f) := by
+    intro he hp
+    cases hs : f.s with
+    | none => exact ⟨by simp [downSrc, hs, goneSrc, hev], Or.inl (by simp [downSrc, hs, goneSrc])⟩
+    | some q =>
+      obtain ⟨_, hb, _, h4, h5, _⟩ := hQs q hs
+      have hr : q.sw.shutR = true := by
+        cases hr : q.sw.shutR with
+        | true => rfl
+        | false => have := (h4 hr).2; rw [he] at this; cases this
+      exact ⟨by simp [downSrc, hs, SV], Or.inr (by simp only [downSrc, hs, SV]; exact ⟨h5 hr, hb, hr⟩)⟩
+  -- the close of one endpoint has reached the other one
+  have closeU : f.app.eofIn = true → f.app.pending = [] → f.dst.sawShut = true := by
+    intro he hp
+    rw [← eU2]
+    rcases hfo.up.eofSeen (nmU he hp) with hh | ⟨_, hm⟩ | hs
+    · rw [upSrc_out, hqc] at hh; simp [hasEof] at hh
+    · cases hs : f.s with
+      | none => exact hfo.up.goneShut (by simp [upSink, hs, goneSink, hev]) (by simp [upSink, hs, goneSink])
+      | some q =>
+        have hm' : q.mw.shutR = true := by simpa [upSink, hs, KV] using hm
+        have hw := (hQs q hs).2.2.2.2.2.1 hm'
+        exact hfo.up.shutOk (by simp [upSink, hs, KV]) (by simp [upSink, hs, KV]; exact hw)
+    · exact hs
+  have closeD : f.dst.eofIn = true → f.dst.pending = [] → f.app.sawShut = true := by
+    intro he hp
+    rw [← eD2]
+    rcases hfo.down.eofSeen (nmD he hp) with hh | ⟨_, hm⟩ | hs
+    · rw [downSrc_out, hqs] at hh; simp [hasEof] at hh
+    · cases hc : f.c with
+      | none => exact hfo.down.goneShut (by simp [downSink, hc, goneSink]) (by simp [downSink, hc, goneSink])
+      | some p =>
+        have hm' : p.mw.shutR = true := by simpa [downSink, hc, KV] using hm
+        have hw := (hQc p hc).2.2.2.2.2.1 hm'
+        exact hfo.down.shutOk (by simp [downSink, hc, KV]) (by simp [downSink, hc, KV]; exact hw)
+    · exact hs
+  refine ⟨hev, ?_, ?_, closeU, closeD, ?_⟩
+  · intro hs
+    rcases cons.1 with h | h
+    · rw [hs] at h; cases h
+    · rw [bufU.1, bufU.2, hqc] at h; simpa [dataOf] using h
+  · intro hs
+    rcases cons.2 with h | h
+    · rw [hs] at h; cases h
+    · rw [bufD.1, bufD.2, hqs] at h; simpa [dataOf] using h
+  · intro a1 a2 d1 d2
+    have sD := closeU a1 a2
+    have sA := closeD d1 d2
+    constructor
+    · intro p hc
+      obtain ⟨_, _, _, h4, _, _, h7, _, h9⟩ := hQc p hc
+      have hr : p.sw.shutR = true := by
+        cases hr : p.sw.shutR with
+        | true => rfl
+        | false => have := (h4 hr).2; rw [a1] at this; cases this
+      have hw : p.sw.shutW = true := ((hsock.1 p hc).1.2).mpr sA
+      exact h9 hr (h7 hw)
+    · intro q hs
+      obtain ⟨_, _, _, h4, _, _, h7, _, h9⟩ := hQs q hs
+      have hr : q.sw.shutR = true := by
+        cases hr : q.sw.shutR with
+        | true => rfl
+        | false => have := (h4 hr).2; rw [d1] at this; cases this
+      have hw : q.sw.shutW = true := ((hsock.2.1 q hs).1.2).mpr sD
+      exact h9 hr (h7 hw)
+
 /-! ### non-vacuity -/
 
 def demo2 : List Step :=
@@ -348,5 +564,22 @@ example :
       [(true, [1, 2, 3])] := by
   refine ⟨⟨rfl, by decide, by decide⟩, (by intro st hst; simp only [demo2, List.mem_cons, List.not_mem_nil, or_false] at hst; rcases hst with h | h | h | h | h | h | h | h <;> subst h <;> trivial), by decide +kernel, by decide +kernel, by decide +kernel,
     by decide +kernel⟩
+
+def demo3 : List Step :=
+  demo2 ++ [.cb .server 0 { recv := .data 65536, send := .sent 65536 }, .dstWrite 0 [9], .dstEof 0,
+    .cb .server 0 { recv := .data 65536, send := .sent 65536 }, .cb .server 0 { recv := .data 65536, send := .sent 65536 },
+    .deliver .client .ok, .deliver .client .ok, .deliver .client .ok,
+    .cb .client 0 { recv := .data 65536, send := .sent 65536 }, .cb .client 0 { recv := .data 65536, send := .sent 65536 },
+    .deliver .server .ok, .deliver .server .ok, .cb .server 0 { recv := .data 65536, send := .sent 65536 }]
+
+/-- The hypotheses of `C02_quiet_complete` are met by a reachable state: a whole connection (three
+bytes up, one byte down, both endpoints closed) run to quiescence is `Quiet`, and indeed both
+handlers are finished and both sockets shut. -/
+example :
+    Quiet (({} : World).run demo3) ∧ (({} : World).run demo3).died = none ∧
+    ((({} : World).run demo3).flows.map fun f =>
+      (f.c.map (·.ok), f.s.map (·.ok), f.app.delivered, f.dst.delivered, f.app.sawShut, f.dst.sawShut)) =
+      [(some false, some false, [9], [1, 2, 3], true, true)] := by
+  refine ⟨(quietB_iff _).mp (by decide +kernel), by decide +kernel, by decide +kernel⟩
 
 end Sshuttle.Tunnel
